@@ -112,7 +112,7 @@ CLAIMS = {
         ref='DESIGN.md section 5 C17',
         text='Static. Decided clauses: H1 values stored into UiToken.start/end are character offsets, no comparison / field / parameter in the crate mixes byte and character offsets, the per-byte map is indexed with byte offsets only and get_position returns characters on every path; '
              'H2 a regex match offset is used as a line offset only when the haystack is the tokenizer\'s identity copy of the line, and that copy and the byte->char map are built from the same string; H3 tokens are appended only after the collision test, the collision predicate rejects every one of the interval orderings that share a character (all orderings of the four end points enumerated), sort dominates every merge, a merge replaces a run by one token with the outer bounds; '
-             'H4 number / operator / comment parsers report their own kind on the group they tokenised, after the internal token was accepted. Not decided: well-formedness for all lines as such (depends on regex behaviour and on the known haystack findings).'),
+             'H4 number / operator / comment parsers report their own kind on the group they tokenised, after the internal token was accepted. H5 the byte offset of the k-th character becomes the character position k and the byte length of the line the number of its characters: tabulated by walking UiTokenCollection::new and get_position (E6c on symbolic strings, callees entered) for every line of up to three characters of 1..4 bytes and every character boundary, whatever data structure the map uses; H1 takes the unit of the result of get_position from this table. Not decided: well-formedness for all lines as such (depends on regex behaviour and on the known haystack findings).'),
     'C18': dict(
         technique='write-shape rules on the rule list / type table, sibling agreement of the three rewrite arms, panic obligations fed by user data',
         ref='DESIGN.md section 5 C18',
